@@ -154,7 +154,7 @@ class GlobalVersion(TlbScheme):
         tag = cell_slice.load_bytes(1)
         if tag[:1] != b'\xc4':
             raise BlockError(f'GlobalVersion deserialization error: unknown prefix: {tag}')
-        return cls(version=cell_slice.load_int(32), capabilities=cell_slice.load_uint(64))
+        return cls(version=cell_slice.load_uint(32), capabilities=cell_slice.load_uint(64))
 
 
 class BlkMasterInfo(TlbScheme):
@@ -209,7 +209,7 @@ class ExtBlkRef(TlbScheme):
     """
 
     def __init__(self, cell_slice: Slice):
-        self.end_lt = cell_slice.load_int(64)
+        self.end_lt = cell_slice.load_uint(64)
         self.seqno = cell_slice.load_uint(32)
         self.root_hash = cell_slice.load_bytes(32)
         self.file_hash = cell_slice.load_bytes(32)
